@@ -69,6 +69,10 @@ CLAIMED = {
    text="compute_fixture_cycles is transcribed step by step into TLA+ (explicit-stack DFS, root order) and TLC evaluates it on every dependency graph of the table; the per-definition reference graph (layer R) decides soundness and completeness of every reported cycle and the scope rule; every (graph, registration order) is replayed on the real library with 3 additional fresh databases for run-to-run stability; the model must predict the implementation's exact output.",
    note="<= 3 fixture names over 4 files, all parameter lists, all registration orders of defining files; scope universe: 5 scopes x dependency defined at up to 4 places.",
    technique="TLA+ transcription of the DFS + case table (TLC) + replay with SCC / scope oracle"),
+ "C17": dict(level=MC, ref="DESIGN.md section 4 C17",
+   text="Undeclared.tla gives the verdict (flag / must not flag / open) per (expression form, statement context, binding form, visibility of the name) and the quick-fix postconditions; TLC enumerates the three groups; warnings are checked on the real library with their exact position; for 19 function shapes the real binary is driven publishDiagnostics -> codeAction -> edit applied -> CPython parse, parameter of the same function, every other function ast-equal, didChange -> warning gone, and the same postconditions are checked for the completion item's additionalTextEdits.",
+   note="270 + 280 library cases, 38 LSP sessions; uses the statement does not list (f-strings, keyword arguments, ...) are only judged when flagged wrongly; known findings are matched by (symptom, input class).",
+   technique="TLA+ verdict table (TLC) + library replay + real-binary quick-fix round trip validated with CPython"),
  "C19": dict(level=MC, ref="DESIGN.md section 4 C19",
    text="Lsp.tla specifies lastPublished per document under open/change notifications and the effective configuration; TLC enumerates every history x configuration variant and checks TracksLatest, RemovingCauseClears, ConfigExact, PartialConfigKeepsRest; every maximal history is one stdio session of the real server binary; after each notification the published diagnostics are compared with the specification's codes and with a library-level twin analysis of the same contents.",
    note="2 documents x 4 versions (each cause introduced/removed, unparsable text), histories <= 3 (quick) / 4 (thorough), 21+ pyproject.toml variants incl. alternative TOML spellings; wrong value types are not judged.",
